@@ -6,7 +6,7 @@
 // Verdict: with L(k) the stream length and W(k) the work, the marginal work per added byte
 //     m(k) = (W(2k) - W(k)) / (L(2k) - L(k))
 // is constant for linear behaviour and doubles per rung for quadratic behaviour; a pattern is super-linear iff m grows by
-// >= 1.6x on each of the last two doublings (a cap such as "64 repetitions" or a field limit changes regime once, not
+// >= 1.6x on each of the last two doublings, or if the increments of m double on the last three rungs (a cap such as "64 repetitions" or a field limit changes regime once, not
 // twice running). Also reported: the largest work of a single call per (bytes given + bytes buffered + 1).
 #include <algorithm>
 #include <functional>
@@ -20,6 +20,23 @@ static vc::Args A;
 static uint64_t g_w = 0; static int g_on = 0;
 extern "C" void __sanitizer_cov_trace_pc_guard(uint32_t *) { g_w += (uint64_t)g_on; }
 extern "C" void __sanitizer_cov_trace_pc_guard_init(uint32_t *start, uint32_t *stop) { for (uint32_t *x = start; x < stop; x++) *x = 1; }
+
+// libc routines whose cost depends on a length are outside the instrumented code: they are wrapped at link time and charged
+// one work unit per 16 bytes touched (realloc: the new size when the block moved, nothing when it grew in place; calloc: the zeroed size)
+extern "C" {
+void *__real_memcpy(void *, const void *, size_t); void *__real_memmove(void *, const void *, size_t); void *__real_memset(void *, int, size_t);
+void *__real_memchr(const void *, int, size_t); int __real_memcmp(const void *, const void *, size_t); size_t __real_strlen(const char *);
+void *__real_realloc(void *, size_t); void *__real_calloc(size_t, size_t);
+static inline void charge(size_t n) { if (g_on) g_w += n / 16 + 1; }
+void *__wrap_memcpy(void *d, const void *s, size_t n) { charge(n); return __real_memcpy(d, s, n); }
+void *__wrap_memmove(void *d, const void *s, size_t n) { charge(n); return __real_memmove(d, s, n); }
+void *__wrap_memset(void *d, int c, size_t n) { charge(n); return __real_memset(d, c, n); }
+void *__wrap_memchr(const void *s, int c, size_t n) { const void *r = __real_memchr(s, c, n); charge(r ? (size_t)((const char *)r - (const char *)s) : n); return (void *)r; }
+int __wrap_memcmp(const void *a, const void *b, size_t n) { charge(n); return __real_memcmp(a, b, n); }
+size_t __wrap_strlen(const char *s) { size_t n = __real_strlen(s); charge(n); return n; }
+void *__wrap_realloc(void *p, size_t n) { void *r = __real_realloc(p, n); charge(r != p ? n : 0); return r; } // growing in place copies nothing
+void *__wrap_calloc(size_t a, size_t b) { charge(a * b); return __real_calloc(a, b); }
+}
 
 struct Streams { std::string rq, rs; int carry; /* 0: the pumped stream is the request stream, 1: the response stream */ };
 struct Pattern { const char *name; int param_lo, param_hi; std::function<Streams(size_t k, int p)> build; };
@@ -92,6 +109,15 @@ static std::vector<Pattern> patterns() {
     v.push_back({"request_content_type_parameters", 0, 1, [](size_t k, int p) { return Streams{with_len("POST / HTTP/1.1\r\nHost: h\r\nContent-Type: " + std::string(p ? "multipart/form-data" : "text/plain") + rep("; a=b", k) + "; boundary=b\r\n", "--b--\r\n"), "", 0}; }});
     v.push_back({"request_host_header_long", 0, 1, [](size_t k, int p) { return Streams{"GET / HTTP/1.1\r\nHost: " + rep(p ? "a." : "a", k) + "example\r\n\r\n", "", 0}; }});
     v.push_back({"request_content_encoding_tokens", 0, 1, [](size_t k, int p) { return Streams{with_len("POST / HTTP/1.1\r\nHost: h\r\nContent-Encoding: " + rep(p ? "," : "gzip, ", k) + "\r\n", "abc"), "", 0}; }});
+    // ---- one long item delivered in pieces (what is buffered must not be re-read or re-copied for every piece)
+    v.push_back({"request_urlencoded_single_long_value", 0, 1, [](size_t k, int p) { return Streams{with_len("POST / HTTP/1.1\r\nHost: h\r\nContent-Type: application/x-www-form-urlencoded\r\n", std::string(p ? "a=" : "") + rep("x", k * 4)), "", 0}; }});
+    v.push_back({"request_multipart_folded_part_header_lines", 1, 4, [](size_t k, int p) { return Streams{with_len("POST / HTTP/1.1\r\nHost: h\r\nContent-Type: multipart/form-data; boundary=b\r\n", "--b\r\nContent-Disposition: form-data; name=\"a\"\r\n" + rep(" " + nm(p) + "\r\n", k) + "\r\nv\r\n--b--\r\n"), "", 0}; }});
+    v.push_back({"request_multipart_single_long_data_line", 0, 1, [](size_t k, int p) { return Streams{with_len("POST / HTTP/1.1\r\nHost: h\r\nContent-Type: multipart/form-data; boundary=bbbb\r\n", "--bbbb\r\nContent-Disposition: form-data; name=\"a\"" + std::string(p ? "; filename=\"f\"" : "") + "\r\n\r\n" + rep("x", k * 4) + "\r\n--bbbb--\r\n"), "", 0}; }});
+    v.push_back({"request_header_single_long_value", 0, 0, [](size_t k, int) { return Streams{RQH + "X-A: " + rep("x", k * 2) + "\r\n\r\n", "", 0}; }});
+    v.push_back({"request_line_long_uri", 0, 1, [](size_t k, int p) { return Streams{"GET /" + rep(p ? "a/" : "a", k * 2) + " HTTP/1.1\r\nHost: h\r\n\r\n", "", 0}; }});
+    v.push_back({"request_cookie_single_long_value", 0, 0, [](size_t k, int) { return Streams{RQH + "Cookie: c=" + rep("x", k * 2) + "\r\n\r\n", "", 0}; }});
+    v.push_back({"response_header_single_long_value", 0, 0, [](size_t k, int) { return Streams{RQ, RSH + "X-A: " + rep("x", k * 2) + "\r\nContent-Length: 0\r\n\r\n", 1}; }});
+    v.push_back({"response_status_line_long_reason", 0, 0, [](size_t k, int) { return Streams{RQ, "HTTP/1.1 200 " + rep("r", k * 2) + "\r\nContent-Length: 0\r\n\r\n", 1}; }});
     v.push_back({"response_interim_100_continue", 0, 0, [](size_t k, int) { return Streams{RQ, rep("HTTP/1.1 100 Continue\r\n\r\n", k) + RSH + "Content-Length: 0\r\n\r\n", 1}; }});
     v.push_back({"response_body_without_status_line", 0, 1, [](size_t k, int p) { return Streams{RQ, rep(p ? "junk\r\n" : "j", k), 1}; }});
     v.push_back({"response_identity_body_lines", 0, 0, [](size_t k, int) { return Streams{RQ, RSH + "\r\n" + rep("body line\r\n", k), 1}; }});
@@ -113,13 +139,16 @@ static Meas measure(const Streams &s, int pers, int delivery) {
     return m;
 }
 
-struct Verdict { bool superlinear = false; std::string table; double ratio_last = 0, ratio_prev = 0; uint64_t w_top = 0, w_bottom = 0; double worst_call = 0; };
+struct Verdict { bool by_increments = false; bool superlinear = false; std::string table; double ratio_last = 0, ratio_prev = 0; uint64_t w_top = 0, w_bottom = 0; double worst_call = 0; };
 static Verdict ladder(const Pattern &pt, int param, int pers, int delivery, int rungs) {
     Verdict v; std::vector<uint64_t> W; std::vector<size_t> L; size_t k = 64;
     for (int r = 0; r < rungs; r++, k *= 2) { Meas m = measure(pt.build(k, param), pers, delivery); W.push_back(m.work); L.push_back(m.len); if (m.worst_call > v.worst_call) v.worst_call = m.worst_call; }
     std::vector<double> mg; for (size_t i = 1; i < W.size(); i++) mg.push_back(L[i] > L[i - 1] ? ((double)W[i] - (double)W[i - 1]) / (double)(L[i] - L[i - 1]) : 0);
     char b[160]; k = 64; for (size_t i = 0; i < W.size(); i++, k *= 2) { snprintf(b, sizeof b, "k=%zu L=%zu W=%llu%s", k, L[i], (unsigned long long)W[i], i ? "" : "\n"); v.table += b; if (i) { snprintf(b, sizeof b, " marginal=%.2f blocks/byte\n", mg[i - 1]); v.table += b; } }
     size_t n = mg.size(); if (n >= 3 && mg[n - 2] > 0.5 && mg[n - 3] > 0.5) { v.ratio_last = mg[n - 1] / mg[n - 2]; v.ratio_prev = mg[n - 2] / mg[n - 3]; v.superlinear = v.ratio_last >= 1.6 && v.ratio_prev >= 1.6; }
+    // a quadratic term under a large linear one (small pieces: high constant cost per call): the marginal cost is a + b*k, its INCREMENTS double
+    // per rung; required on the last three increments, and the last increment must be a substantial part (>= 30%) of the last marginal cost
+    if (!v.superlinear && n >= 4) { double d1 = mg[n - 1] - mg[n - 2], d2 = mg[n - 2] - mg[n - 3], d3 = mg[n - 3] - mg[n - 4]; if (d3 > 0.5 && d2 >= 1.6 * d3 && d1 >= 1.6 * d2 && d1 >= 0.3 * mg[n - 1]) { v.superlinear = true; v.by_increments = true; } }
     v.w_top = W.back(); v.w_bottom = W.front();
     return v;
 }
@@ -135,6 +164,7 @@ static void campaign() {
         static size_t walked = 0; size_t idx; size_t mine = (size_t)A.shard + walked * (size_t)A.nshards;
         if (mine < P.size()) { idx = mine; walked++; (void)rcx::range(0, 1); } else idx = (size_t)rcx::range(0, (int)P.size() - 1);
         const Pattern &pt = P[idx]; int param = rcx::range(pt.param_lo, pt.param_hi), pers = rcx::range(0, 9), delivery = rcx::range(0, 3);
+        if (std::string(pt.name).find("long") != std::string::npos) delivery = rcx::range(1, 2); // one long item: the question is what each small piece costs
         int rg = rungs; if (delivery == 1 && rg > 7) rg = 7; // one byte per call: the ladder stops at k = 4096
         std::string text = case_text(pt.name, param, pers, delivery, rg); vc::set_current_case(text);
         Verdict v = ladder(pt, param, pers, delivery, rg);
@@ -142,7 +172,7 @@ static void campaign() {
             char b[200]; snprintf(b, sizeof b, "%s param=%d %s: marginal ratios %.2f, %.2f; worst single call %.1f blocks per (byte given + buffered)", pt.name, param, DN[delivery], v.ratio_prev, v.ratio_last, v.worst_call); if (g_stats.notes.size() < 60) g_stats.notes.push_back(b);
             g_stats.sample_sparse(text + v.table, g_stats.classes["ladders"]); }
         if (v.superlinear) { std::string sig = "C08:superlinear:" + sig_name(pt.name, param); if (A.is_known(sig)) { if (!rcx::shrinking()) g_stats.attributed[sig]++; return {}; }
-            char b[200]; snprintf(b, sizeof b, "marginal work per byte grows %.2fx and %.2fx on the last two doublings (%s)\n", v.ratio_prev, v.ratio_last, DN[delivery]); return rcx::Fail{sig, text, b + v.table}; }
+            char b[200]; snprintf(b, sizeof b, "marginal work per byte grows %.2fx and %.2fx on the last two doublings%s (%s)\n", v.ratio_prev, v.ratio_last, v.by_increments ? "; its increments double on the last three rungs (quadratic term under a linear one)" : "", DN[delivery]); return rcx::Fail{sig, text, b + v.table}; }
         return {};
     });
 }
